@@ -1,11 +1,17 @@
 import ScriggoV.Drv.Util
 import ScriggoV.Model.ExprPP
+import ScriggoV.Model.OpTables
 /-! Line protocol of C27.
 
 * `print <expr>`  → `ok <tokens>`      (`print`)
 * `norm <expr>`   → `ok <expr>`        (`norm`)
 * `strip <expr>`  → `ok <expr>`        (`strip`)
 * `parse <tokens>`→ `ok <expr>` / `err syntax`   (`parse`)
+* `assigns` → `ok <Name>…` the AssignmentType constants; `assign <Name>` → `ok <hex>` what
+  `(*Assignment).String()` writes; `assignparse <0|1> <hex>` → `ok <Name>` / `err none` (`parseAssignOp`,
+  flag = template syntax); `unaryop <hex>` / `binaryop <hex>` → `ok <Op>` / `err none`;
+  `lexword <0|1> <hex>` → `ok <hex of tokenString>` / `err none`; `table emits|keywords|template` →
+  `ok <hex>…` the texts of a lexer table; `classes expr|stmt|notsource|notnodes|strings|nodes` → `ok <Type>…`
 
 `<expr>` is prefix notation with fixed arity: `I n` identifier `x<n>`, `L <Kind> n` literal,
 `U <Op> e`, `B <Op> l r` (`<Op>` = the Go constant without `Operator`), `C <0|1> <k> f a1 … ak`
@@ -177,6 +183,52 @@ def wordTok (w : String) : Option Token :=
 
 def okWords (ws : List String) : String := "ok " ++ " ".intercalate ws
 
+section optables
+open ScriggoV.Gen.OpTokens ScriggoV.OpTables
+/-- operator and keyword text is ASCII -/
+def textOfHex (h : String) : Option String :=
+  if h == "-" then some "" else (fromHex h).map fun b => String.ofList (b.map fun c => Char.ofNat c.toNat)
+def hexOfText (s : String) : String :=
+  if s.isEmpty then "-" else toHex (s.toList.map fun c => c.toNat.toUInt8)
+def flagOf (s : String) : Option Bool := if s == "1" then some true else if s == "0" then some false else none
+
+def handleTables : List String → Option String
+  | ["assigns"] => some (okWords (Assign.all.map Assign.name))
+  | ["assign", n] => (Assign.all.find? (fun a => a.name == n)).map fun a => "ok " ++ hexOfText a.printed
+  | ["assignparse", t, h] => do
+    let t ← flagOf t
+    let s ← textOfHex h
+    match parseAssignOp t s with
+    | some a => pure ("ok " ++ a.name)
+    | none => pure "err none"
+  | ["unaryop", h] => do
+    let s ← textOfHex h
+    match parseUnaryOp s with
+    | some o => pure ("ok " ++ o.name)
+    | none => pure "err none"
+  | ["binaryop", h] => do
+    let s ← textOfHex h
+    match parseBinaryOp s with
+    | some o => pure ("ok " ++ o.name)
+    | none => pure "err none"
+  | ["lexword", t, h] => do
+    let t ← flagOf t
+    let s ← textOfHex h
+    match lexWord t s with
+    | some k => pure ("ok " ++ hexOfText k.str)
+    | none => pure "err none"
+  | ["table", "emits"] => some (okWords (lexEmits.map fun e => hexOfText e.1))
+  | ["table", "keywords"] => some (okWords (keywords.map fun e => hexOfText e.1))
+  | ["table", "template"] => some (okWords (templateKeywords.map fun e => hexOfText e.1))
+  | ["classes", "expr"] => some (okWords roundTripExpr)
+  | ["classes", "stmt"] => some (okWords roundTripStmt)
+  | ["classes", "notsource"] => some (okWords notSource)
+  | ["classes", "notnodes"] => some (okWords notNodes)
+  | ["classes", "strings"] => some (okWords stringMethods)
+  | ["classes", "nodes"] => some (okWords nodeTypes)
+  | _ => none
+end optables
+
 def handle : List String → Option String
   | "print" :: ws => do
     let e ← decodeAll ws
@@ -192,6 +244,6 @@ def handle : List String → Option String
     match parse ts with
     | some e => pure (okWords (encode e))
     | none => pure "err syntax"
-  | _ => none
+  | ws => handleTables ws
 
 end ScriggoV.Drv.C27
